@@ -169,6 +169,22 @@ func genChanScenario(rng *rand.Rand, profile, mode string) any {
 		}
 		return "get"
 	}
+	if rng.Intn(8) == 0 {
+		// shape: the PARENT context (cancelling it needs no lock of the Channel) is cancelled while Gets find values in
+		// the source - whatever a Get has taken out of the source is either returned or still in Buffer()
+		for i := 1 + rng.Intn(2); i > 0; i-- {
+			sc.Setup = append(sc.Setup, COp{K: "send"})
+		}
+		gets := []COp{{K: "get"}, {K: "get"}, {K: "buffer"}}
+		if rng.Intn(2) == 0 {
+			gets = []COp{{K: "get"}, {K: "commit"}, {K: "get"}, {K: "buffer"}}
+		}
+		sc.Drivers = append(sc.Drivers, gets, []COp{{K: "buffer"}, {K: "pcancel"}})
+		if rng.Intn(2) == 0 {
+			sc.Drivers = append(sc.Drivers, []COp{{K: "send"}, {K: "send"}})
+		}
+		return sc
+	}
 	for i := rng.Intn(3); i > 0; i-- {
 		sc.Setup = append(sc.Setup, COp{K: "send"})
 	}
